@@ -25,6 +25,9 @@
 (*   n     number of requests received so far; request ids are 1..n        *)
 (*   term  per request id: number of terminal responses produced           *)
 (*   shut  id of the pending soft stop (0 = none); stopped; handed         *)
+(*   gate, pending, crashed   the accept gate (can_accept), accept_ready   *)
+(*         and whether the worker thread panicked (environment actions     *)
+(*         Env_* model client connections saturating the worker)           *)
 (*                                                                         *)
 (* One action per run-to-completion step: Recv(r) (one request handled by  *)
 (* read_channel_messages_and_notify), Flush (send_queue), LoopEnd (the     *)
@@ -43,14 +46,19 @@ CONSTANTS Listeners,     \* subset of DOMAIN LDef
           Deviations,    \* open known findings modelled as the code behaves
           Deterministic, \* TRUE: exclude requests whose outcome the code leaves open (generator)
           Preamble,      \* requests already handled in the initial state (a sequence of [k, a] records)
+          Traffic,       \* TRUE: client connections may saturate the worker (accept gate, accept_ready)
           Emit           \* TRUE: print one REPLAY line per distinct transition (generator configs)
 
-VARIABLES cfg, rl, slabL, base, rcl, rbe, queue, out, n, term, shut, stopped, handed, allOk, hist, prev
+VARIABLES cfg, rl, slabL, base, rcl, rbe, queue, out, n, term, shut, stopped, handed, allOk, hist, prev,
+          gate,     \* SessionManager.can_accept
+          pending,  \* accept_ready: listen tokens whose readiness was remembered while the gate was closed
+          crashed   \* the worker thread panicked
 
-vars == <<cfg, rl, slabL, base, rcl, rbe, queue, out, n, term, shut, stopped, handed, allOk, hist, prev>>
+vars == <<cfg, rl, slabL, base, rcl, rbe, queue, out, n, term, shut, stopped, handed, allOk, hist, prev,
+          gate, pending, crashed>>
 
 \* what distinguishes states for the model checker (out, hist and prev are histories)
-MCView == <<cfg, rl, slabL, base, rcl, rbe, queue, n, term, shut, stopped, handed, allOk>>
+MCView == <<cfg, rl, slabL, base, rcl, rbe, queue, n, term, shut, stopped, handed, allOk, gate, pending, crashed>>
 \* generator: one TLC state per (state, request) transition
 GenView == <<MCView, prev, IF hist = <<>> THEN <<>> ELSE hist[Len(hist)]>>
 
@@ -255,10 +263,11 @@ Init ==
   /\ hist = [i \in 1..Len(Preamble) |->
                [req |-> Preamble[i], st |-> "ok", accepted |-> TRUE, base |-> PreState(i).base]]
   /\ prev = <<>>
+  /\ gate = TRUE /\ pending = {} /\ crashed = FALSE
 
 \* read_channel_messages_and_notify: one request
 Recv(r) ==
-  /\ ~stopped /\ n < MaxReq
+  /\ ~stopped /\ ~crashed /\ n < MaxReq
   /\ shut # 0 => r.k \in AfterStop
   /\ Deterministic => Determined(r)
   /\ LET id == n + 1
@@ -266,6 +275,11 @@ Recv(r) ==
      IN \E o \in RtOutcomes(r) :
         /\ n' = id
         /\ prev' = MCView
+        \* DeactivateListener / RemoveListener forget the token of the socket they take away
+        /\ pending' = IF r.k \in {"Deactivate", "RemoveListener"}
+                       THEN pending \ {x.tok : x \in rl \ o.rl}
+                       ELSE pending
+        /\ UNCHANGED <<gate, crashed>>
         /\ cfg' = cs.c
         /\ rcl' = o.rcl /\ rbe' = o.rbe
         /\ handed' = (handed \/ r.k = "ReturnSockets")
@@ -299,22 +313,42 @@ Recv(r) ==
 
 \* send_queue
 Flush ==
-  /\ ~stopped /\ queue # <<>>
+  /\ ~stopped /\ ~crashed /\ queue # <<>>
   /\ out' = out \o queue /\ queue' = <<>>
-  /\ UNCHANGED <<cfg, rl, slabL, base, rcl, rbe, n, term, shut, stopped, handed, allOk, hist, prev>>
+  /\ UNCHANGED <<cfg, rl, slabL, base, rcl, rbe, n, term, shut, stopped, handed, allOk, hist, prev, gate, pending, crashed>>
 
 \* end of a loop iteration while shutting down: shut_down_sessions (no client session is modelled
 \* here: the slab holds the system entries and the listener entries)
 SlabLen == SysEntries + Cardinality(slabL)
 LoopEnd ==
-  /\ ~stopped /\ shut # 0 /\ queue = <<>>
+  /\ ~stopped /\ ~crashed /\ shut # 0 /\ queue = <<>>
   /\ SlabLen <= base
   /\ out' = Append(out, Resp(shut, "ok"))
   /\ term' = [term EXCEPT ![shut] = @ + 1]
   /\ stopped' = TRUE
-  /\ UNCHANGED <<cfg, rl, slabL, base, rcl, rbe, queue, n, shut, handed, allOk, hist, prev>>
+  /\ UNCHANGED <<cfg, rl, slabL, base, rcl, rbe, queue, n, shut, handed, allOk, hist, prev, gate, pending, crashed>>
+
+\* Environment: client connections. max_connections is reached: check_limits closes the gate.
+Env_Saturate ==
+  /\ Traffic /\ ~stopped /\ ~crashed /\ gate
+  /\ gate' = FALSE
+  /\ UNCHANGED <<cfg, rl, slabL, base, rcl, rbe, queue, out, n, term, shut, stopped, handed, allOk, hist, prev, pending, crashed>>
+\* ready(): a connection arrives on an active listener while the gate is closed: the token is remembered
+Env_Connect(x) ==
+  /\ Traffic /\ ~stopped /\ ~crashed /\ ~gate /\ x \in rl /\ x.active
+  /\ pending' = pending \cup {x.tok}
+  /\ UNCHANGED <<cfg, rl, slabL, base, rcl, rbe, queue, out, n, term, shut, stopped, handed, allOk, hist, prev, gate, crashed>>
+\* sessions close, decr() reopens the gate, handle_remaining_readiness replays every remembered token:
+\* it indexes the slab with the token (a vacant slot panics); accept() then forgets the token
+Env_Release ==
+  /\ Traffic /\ ~stopped /\ ~crashed /\ ~gate
+  /\ gate' = TRUE
+  /\ IF pending \subseteq slabL THEN pending' = {} /\ UNCHANGED crashed
+     ELSE crashed' = TRUE /\ UNCHANGED pending
+  /\ UNCHANGED <<cfg, rl, slabL, base, rcl, rbe, queue, out, n, term, shut, stopped, handed, allOk, hist, prev>>
 
 Next == (\E r \in Requests : Recv(r)) \/ Flush \/ LoopEnd
+        \/ Env_Saturate \/ (\E x \in rl : Env_Connect(x)) \/ Env_Release
 Spec == Init /\ [][Next]_vars
 \* generator: request steps only (flushing and the soft-stop check are the harness's epilogue)
 GenSpec == Init /\ [][\E r \in Requests : Recv(r)]_vars
@@ -353,6 +387,7 @@ TypeOK ==
   /\ n \in 0..MaxReq /\ shut \in 0..MaxReq /\ base \in Nat
   /\ \A x \in rl : x.l \in Listeners /\ x.tok \in Nat /\ x.active \in BOOLEAN
   /\ rcl \subseteq Clusters /\ rbe \subseteq Backends
+  /\ gate \in BOOLEAN /\ crashed \in BOOLEAN /\ pending \subseteq Nat
 
 \* (a) exactly one terminal answer per received request; the pending soft stop has none yet
 P_C08_ExactlyOnce ==
@@ -377,7 +412,11 @@ P_C08_BaseCount ==
   /\ slabL = {x.tok : x \in rl} \/ shut # 0 \/ stopped
   /\ \A x, y \in rl : x.tok = y.tok => x = y
 
-P_C08 == P_C08_ExactlyOnce /\ P_C08_Converged /\ P_C08_BaseCount
+\* (a'') no command sequence interleaved with client connections makes the worker thread panic
+\* (a crashed worker answers nothing any more): every remembered token is a live slab entry
+P_C08_NoStaleAccept == ~crashed /\ pending \subseteq slabL
+
+P_C08 == P_C08_ExactlyOnce /\ P_C08_Converged /\ P_C08_BaseCount /\ P_C08_NoStaleAccept
 
 ---------------------------------------------------------------------------
 (* Generator: one line per distinct state: the history that reached it,    *)
